@@ -222,6 +222,25 @@ def _check_scale(ctx: Ctx, ser_terms: Dict[str, T.Term]) -> None:
             ci = T.coefficient_of(im_t, lambda a: a == ('sym', 'ii'))
             if cj.is_const() and ci.is_const() and abs(cj.const_value()) == abs(ci.const_value()) != 0:
                 h2 = (cj.const_value() / 2) ** 2
+    if h2 is None:
+        # vectorised grid: the levels are stored through `symbols.real = tile/repeat(<a + c * arange(L)>, L)`
+        env = T.Env(M, cc, opaque=set())
+        env.vars.update(loc)
+        coefs = []
+        for n in walk_no_nested(cc.node):
+            if isinstance(n, ast.Assign) and isinstance(n.targets[0], ast.Attribute) and n.targets[0].attr in ('real', 'imag'):
+                v = n.value
+                while isinstance(v, ast.Call) and norm(v.func) in ('np.tile', 'np.repeat', 'np.asarray', 'np.array') and v.args:
+                    v = v.args[0]
+                try:
+                    t_ = T.from_ast(v, env)
+                except T.Unknown:
+                    continue
+                c_ = T.coefficient_of(t_, lambda a: a[0] == 'call' and a[1].split('.')[-1] == 'arange')
+                if c_.is_const() and c_.const_value() != 0:
+                    coefs.append(abs(c_.const_value()))
+        if len(coefs) == 2 and coefs[0] == coefs[1]:
+            h2 = (coefs[0] / 2) ** 2
     construct = 'QAM:scale'
     ctx.instance('C16.b', construct)
     arg = _qfunc_arg(ser_terms['QAM._calcTheoreticalSingleCarrierErrorRate'])
